@@ -11,7 +11,7 @@ set -u
 cd "$(dirname "$0")"
 PROP="$1"; PROCS="${2:-8}"; JOBS="${3:-20}"; FIRST="${4:-0}"
 export CARGO_NET_OFFLINE=true CARGO_TARGET_DIR="$(pwd)/target/miri"
-export MIRIFLAGS="-Zmiri-disable-isolation -Zmiri-disable-stacked-borrows"
+export MIRIFLAGS="-Zmiri-disable-isolation"
 cargo +nightly miri --version >/dev/null 2>&1 || { echo "miri tier: cargo +nightly miri not available, skipped"; exit 3; }
 cd flatsim
 # warm-up (build once)
